@@ -19,6 +19,7 @@ epsilon - every real `sleep` overshoots).
 from __future__ import annotations
 
 from mitmproxy import tcp as mtcp
+from mitmproxy.connection import ConnectionState
 from mitmproxy.connection import Server
 from mitmproxy.proxy import commands
 from mitmproxy.proxy import events
@@ -27,7 +28,7 @@ from mitmproxy.proxy.layers import tcp as ltcp
 
 import vmc.drivers.world as wm
 from vmc.drivers import mbfs
-from vmc.drivers.world import World
+from vmc.drivers.eworld import EWorld
 from vmc.tally import HarnessError, Tally
 
 META = {
@@ -49,6 +50,10 @@ TICK = 1e-6
 MAX_PENDING = 3
 MAX_STARTS = 4
 MAX_OPENS = 2
+# (client_connected hook held, eager task factory effective as in production)
+VARIANTS_QUICK = [(False, True), (True, True)]
+VARIANTS_THOROUGH = [(False, True), (True, True), (False, False), (True, False)]
+VARIANTS = VARIANTS_THOROUGH
 
 
 class ScriptLayer(layer.Layer):
@@ -66,10 +71,18 @@ class ScriptLayer(layer.Layer):
                     h.blocking = self
                     yield h
                 elif c == "o":
-                    cmd = commands.OpenConnection(Server(address=("10.0.0.1", 80)))
+                    s = Server(address=("10.0.0.1", 80))
+                    self.conns = getattr(self, "conns", []) + [s]
+                    cmd = commands.OpenConnection(s)
                     cmd.blocking = self
                     yield cmd
-        elif isinstance(ev, events.ConnectionClosed):
+                elif c == "c":
+                    # the layer is done with its first open upstream connection ("closed by command")
+                    for s in getattr(self, "conns", []):
+                        if s.state is ConnectionState.OPEN:
+                            yield commands.CloseConnection(s)
+                            break
+        elif isinstance(ev, events.ConnectionClosed) and ev.connection is self.context.client:
             yield commands.CloseConnection(ev.connection)
 
 
@@ -81,13 +94,31 @@ def _policy(name, data, world):
 class Sys:
     def __init__(self):
         self.cc = None  # variant: is the client_connected hook held? chosen by the first action
+        self.eager = None  # variant: task starts eager (production) or deferred
         self.hist = ()
-        self.w = World(mode="reverse:tcp://10.0.0.1:80", layer_factory=lambda ctx: ScriptLayer(ctx),
-                       policy=_policy, suspend=self._suspend)
-        w = self.w
-        self.t0 = w.loop.time()
+        self.w = None
+        self.t0 = 0.0
         self.callbacks = []  # times at which the watchdog invoked its callback
         self.callback_raised = False
+        # reference model (harness' own bookkeeping, never read from the watchdog)
+        self.pending = []  # [kind, start_time, expiries_since_start, world-suspended-record or flow]
+        self.last_act = self.t0  # last client data (unambiguous activity); the accept itself counts
+        self.last_any = self.t0  # last environment action of any kind except clock moves
+        self.last_done = None  # when the number of pending hooks last dropped to 0
+        self.closed_at = None
+        self.closed_info = None
+        self.starts = 0
+        self.opens = 0
+        self.moved = False
+        self.judged_close = False
+        self.livelock = False
+        self.pass_next = False
+
+    def _build(self):
+        self.w = EWorld(mode="reverse:tcp://10.0.0.1:80", layer_factory=lambda ctx: ScriptLayer(ctx),
+                        policy=_policy, suspend=self._suspend, eager=self.eager)
+        w = self.w
+        self.t0 = self.last_act = self.last_any = w.loop.time()
         wd = w.handler.timeout_watchdog
         wd.timeout = TIMEOUT  # what ConnectionHandler.__init__ reads from options.tcp_timeout (Options.update costs 1 ms per state)
         orig = wd.callback
@@ -101,22 +132,13 @@ class Sys:
                 raise
 
         wd.callback = cb
-        # reference model (harness' own bookkeeping, never read from the watchdog)
-        self.pending = []  # [kind, start_time, expiries_since_start, world-suspended-record or flow]
-        self.last_act = self.t0  # last client data (unambiguous activity); the accept itself counts
-        self.last_any = self.t0  # last environment action of any kind except clock moves
-        self.last_done = None  # when the number of pending hooks last dropped to 0
-        self.closed_at = None
-        self.closed_info = None
-        self.starts = 0
-        self.opens = 0
-        self.moved = False
-        self.judged_close = False
 
     def _suspend(self, name, data, world):
         if name == "tcp_message":
             return not data.metadata.get("icpt")
         if name == "server_connected":
+            return not self.pass_next
+        if name == "server_disconnected":
             return True
         if name == "client_connected":
             return bool(self.cc)
@@ -129,6 +151,8 @@ class Sys:
 
     def _adopt(self, kind):
         """the action just performed must have left exactly one new hook held"""
+        if self.livelock:
+            return
         known = [p[3] for p in self.pending]
         new = [r for r in self.w.suspended if not any(r is k for k in known)]
         if len(new) != 1:
@@ -136,6 +160,8 @@ class Sys:
         self.pending.append([kind, self.now, 0, new[0]])
 
     def _adopt_flow(self):
+        if self.livelock:
+            return
         known = [p[3] for p in self.pending]
         new = [d for n, d in self.w.hook_objs if n == "tcp_message" and d.metadata.get("icpt") and d.intercepted and not any(d is k for k in known)]
         if len(new) != 1:
@@ -146,13 +172,16 @@ class Sys:
         """quiesce; when the watchdog spins on sleep(0) at a frozen clock, tick the clock"""
         w = self.w
         wm._CURRENT = w
+        if self.livelock:
+            return
         for _ in range(5):
             try:
                 w.loop.quiesce(limit=400)
                 return
             except RuntimeError:
                 w.loop.advance(TICK)
-        raise HarnessError("loop does not quiesce even when the clock ticks: %r" % (self.hist,))
+        # the code under test keeps the loop busy although the clock moves: a busy loop, judged by check()
+        self.livelock = True
 
     def closed(self):
         return any(n == "client_disconnected" for n, _ in self.w.hooks)
@@ -170,21 +199,28 @@ class Sys:
     # ---------------------------------------------------------------- actions
     def actions(self):
         if self.cc is None:
-            return [["start", False], ["start", True]]
-        if self.closed_at is not None:
+            return [["start", cc, eager] for cc, eager in VARIANTS]
+        if self.closed_at is not None or self.livelock:
             return []
         w = self.w
         acts = []
         started = not any(p[0] == "client_connected" for p in self.pending)
+        room = len(self.pending) < MAX_PENDING and self.starts < MAX_STARTS
         if started:
             acts.append(["act"])
-            if len(self.pending) < MAX_PENDING and self.starts < MAX_STARTS:
+            if room:
                 acts.append(["ev_hook"])
                 acts.append(["ev_icpt"])
             if self.opens < MAX_OPENS:
                 acts.append(["open"])
-            if w.pending_connects() and len(self.pending) < MAX_PENDING and self.starts < MAX_STARTS:
-                acts.append(["conn_ok"])
+            if w.pending_connects():
+                if room:
+                    acts.append(["conn_ok"])
+                acts.append(["conn_ok_pass"])
+            # the layer closes an established upstream connection: server_disconnected is then called directly and held
+            # (not while a server_connected hook is pending: cancelling that is C09's subject)
+            if room and any(e.state == "open" and not e.w.closed for e in w.servers) and not any(p[0] == "direct" for p in self.pending):
+                acts.append(["close_srv"])
         for j in range(len(self.pending)):
             acts.append(["fin", j])
         if w.loop.next_timer() is not None:
@@ -194,16 +230,18 @@ class Sys:
         return acts
 
     def apply(self, a):
-        w = self.w
         before = [list(p) for p in self.pending]
         kind = a[0]
         self.hist = self.hist + (tuple(a),)
         if kind == "start":
-            self.cc = bool(a[1])
-            self.t0 = self.last_act = self.last_any = self.now
-            w.start()
+            self.cc, self.eager = bool(a[1]), bool(a[2])
+            self._build()
+            self.w.start()
             if self.cc:
                 self._adopt("client_connected")
+        w = self.w
+        if kind == "start":
+            pass
         elif kind == "adv":
             t_before = self.now
             nt = w.loop.next_timer()
@@ -212,56 +250,72 @@ class Sys:
             else:
                 if not w.loop.advance_to_next_timer(EPS if a[1] == "eps" else 0.0):
                     raise HarnessError("no timer to advance to: %r" % (self.hist,))
-            crossed = nt is not None and nt <= self.now
-            self._run()
-            if crossed:
+            if nt is not None and nt <= self.now:
                 for p in self.pending:
-                    p[2] += 1
+                    p[2] += 1  # this hook has now seen one more expiry of a watchdog sleep
+            before = [list(p) for p in self.pending]
+            self._run()
             self.moved = self.moved or self.now > t_before
         else:
+            call = w.loop.call_in_loop
+            wm._CURRENT = w
             self.last_any = self.now
             if kind == "act":
                 self.last_act = self.now
-                w.client_send(b"n")
+                call(w.client.send, b"n")
+                self._run()
             elif kind == "ev_hook":
                 self.last_act = self.now
                 self.starts += 1
-                w.do(w.client.send, b"h")
+                call(w.client.send, b"h")
                 self._run()
                 self._adopt("event")
             elif kind == "ev_icpt":
                 self.last_act = self.now
                 self.starts += 1
-                w.do(w.client.send, b"i")
+                call(w.client.send, b"i")
                 self._run()
                 self._adopt_flow()
             elif kind == "open":
                 self.last_act = self.now
                 self.opens += 1
-                w.client_send(b"o")
-            elif kind == "conn_ok":
+                call(w.client.send, b"o")
+                self._run()
+            elif kind in ("conn_ok", "conn_ok_pass"):
+                e = w.pending_connects()[0]
+                e.state = "open"
+                self.pass_next = kind == "conn_ok_pass"
+                call(e.connect_fut.set_result, None)
+                self._run()
+                self.pass_next = False
+                if kind == "conn_ok":
+                    self.starts += 1
+                    self._adopt("direct")
+            elif kind == "close_srv":
+                self.last_act = self.now
                 self.starts += 1
-                w.connect_ok(w.pending_connects()[0])
-                self._adopt("direct")
+                call(w.client.send, b"c")
+                self._run()
+                self._adopt("direct_after_close")
             elif kind == "fin":
                 p = self.pending.pop(a[1])
                 if p[0] == "icpt":
-                    w.do(p[3].resume)
+                    call(p[3].resume)
                 else:
                     fut = p[3][2]
-                    w.do(lambda: (not fut.done()) and fut.set_result(None))
+                    call(lambda: (not fut.done()) and fut.set_result(None))
                 if not self.pending:
                     self.last_done = self.now
+                self._run()
             else:
                 raise HarnessError("unknown action %r" % (a,))
-            self._run()
         self._observe_close(before)
 
     # ---------------------------------------------------------------- oracle
     def feats(self):
         info = self.closed_info or {}
         pend = info.get("pending") or []
-        f = {"client_connected_held": self.cc}
+        f = {"client_connected_held": self.cc, "eager": self.eager}
         if pend:
             f["oldest_pending"] = pend[0][0]
             f["timer_expiries_since_oldest_started"] = "1" if pend[0][2] <= 1 else "2+"
@@ -284,15 +338,23 @@ class Sys:
             t.judge("not_early_after_activity", info["since_act"] >= TIMEOUT, dict(f, last=self.hist[-1][0]), case, ">= %d s since the last client data" % TIMEOUT, info)
             if info["since_done"] is not None and not info["pending"]:
                 t.judge("idle_period_restarts_after_last_hook", info["since_done"] >= TIMEOUT, dict(f, last=self.hist[-1][0]), case, ">= %d s since the last pending hook completed" % TIMEOUT, info)
+        if self.livelock:
+            if not self.judged_close:
+                self.judged_close = True
+                t.bad("eventually_closed", {"client_connected_held": self.cc, "eager": self.eager, "watchdog": "busy-loop"}, case,
+                      "the loop settles once the clock moves", "the connection's tasks keep the event loop busy forever (clock ticked 5 times)")
+            return
         if self.closed_at is None:
             idle = self.now - self.last_any
             must = (not self.pending) and idle > TIMEOUT
-            t.judge("eventually_closed", not must, {"client_connected_held": self.cc, "callback_raised": self.callback_raised, "watchdog_called": bool(self.callbacks)}, case,
+            t.judge("eventually_closed", not must, {"client_connected_held": self.cc, "eager": self.eager, "callback_raised": self.callback_raised, "watchdog_called": bool(self.callbacks)}, case,
                     "closed: nothing pending and %.6f s > %d s without any event" % (idle, TIMEOUT),
                     {"timer": self.w.loop.next_timer(), "callbacks": [round(c - self.t0, 6) for c in self.callbacks]})
 
     def fingerprint(self):
         w = self.w
+        if w is None:
+            return {"init": True}
         now = self.now
         wd = w.handler.timeout_watchdog
         nt = w.loop.next_timer()
@@ -304,15 +366,15 @@ class Sys:
             return d if d <= TIMEOUT else "gt"
 
         return {
-            "cc": self.cc,
+            "cc": self.cc, "eager": self.eager,
             "blocker": wd.blocker, "can": wd.can_timeout.is_set(), "la": age(wd.last_activity),
             "timer": None if nt is None else round(nt - now, 6),
             # the age of a pending hook is only reported, never compared
             "pending": [[p[0], min(p[2], 2)] for p in self.pending],
             "ref": [age(self.last_act), age(self.last_any), age(self.last_done)],
             "closed": self.closed_at is not None, "connects": len(w.pending_connects()), "opens": self.opens, "starts": self.starts,
-            "callbacks": len(self.callbacks), "raised": self.callback_raised,
-            "servers": [e.state for e in w.servers],
+            "callbacks": len(self.callbacks), "raised": self.callback_raised, "livelock": self.livelock,
+            "servers": [e.state + ("-closed" if e.w.closed else "") for e in w.servers],
         }
 
     def final(self, t: Tally):
@@ -320,7 +382,7 @@ class Sys:
         w = self.w
         if self.cc is None:
             return
-        if self.closed_at is None:
+        if self.closed_at is None and not self.livelock:
             while self.pending:
                 self.apply(["fin", 0])
                 self.check(t)
@@ -346,10 +408,8 @@ def _dispose_all(keep=None):
     for s in list(_LIVE):
         if s is not keep:
             _LIVE.remove(s)
-            try:
+            if s.w is not None:
                 s.w.dispose()
-            except Exception:
-                pass
 
 
 class Spec:
@@ -365,12 +425,14 @@ class Spec:
 
 
 def run(ctx):
+    global VARIANTS
     depth = ctx.pick(6, 8)
+    VARIANTS = ctx.pick(VARIANTS_QUICK, VARIANTS_THOROUGH)
     ctx.bounds = {
         "timeout_s": TIMEOUT, "epsilon_s": EPS, "depth": "%d actions after the variant choice" % depth,
-        "actions": ["act", "ev_hook", "ev_icpt", "open", "conn_ok", "fin j", "adv exact", "adv eps", "adv 1"],
+        "actions": ["act", "ev_hook", "ev_icpt", "open", "conn_ok (server_connected held)", "conn_ok_pass", "close_srv (server_disconnected held)", "fin j", "adv exact", "adv eps", "adv 1"],
         "max_pending_hooks": MAX_PENDING, "max_hook_starts": MAX_STARTS, "max_opens": MAX_OPENS,
-        "variants": ["client_connected instant", "client_connected held"],
+        "variants (client_connected held, eager task start)": [list(v) for v in VARIANTS],
     }
     mbfs.bfs_once(Spec(), depth + 1, ctx.tally, log=ctx.log)
     _dispose_all()
